@@ -558,6 +558,20 @@ def consumed (toks : List Tok) : Nat :=
   | .ok _ p => toks.length - p.toks.length
   | .err _ p => toks.length - p.toks.length
 
+/-- result and number of consumed tokens from ONE run of the parser (what the driver calls) -/
+def parseBoth (toks : List Tok) : (Option Node × Option Err) × Nat :=
+  match parseBody (fuelFor toks) { toks := toks, node := none } with
+  | .ok n p => ((some n, none), toks.length - p.toks.length)
+  | .err e p => ((none, some e), toks.length - p.toks.length)
+
+theorem parseBoth_fst (toks : List Tok) : (parseBoth toks).1 = parseToks toks := by
+  unfold parseBoth parseToks parseToksWith
+  cases parseBody (fuelFor toks) { toks := toks, node := none } <;> rfl
+
+theorem parseBoth_snd (toks : List Tok) : (parseBoth toks).2 = consumed toks := by
+  unfold parseBoth consumed
+  cases parseBody (fuelFor toks) { toks := toks, node := none } <;> rfl
+
 /-- ParseWithRuntime: (tree?, error?) -/
 def parse (input : List Nat) : Option Node × Option Err := parseToks (lex input).toList
 
